@@ -23,7 +23,7 @@
 From Coq Require Import Bool NArith List Lia.
 Import ListNotations.
 From RsddV Require Import Base.Bdd Model.Wmc Proofs.BddCanon Proofs.Wmc Proofs.Smooth Model.Semirings Proofs.Semirings
-  Model.SemHash Proofs.SemHash Generated.Constants.
+  Model.SemHash Proofs.SemHashSdd Proofs.SemHash Generated.Constants.
 
 Local Open Scope N_scope.
 
@@ -212,6 +212,21 @@ Proof.
   apply (semantic_correct_if_injective_fn m P OK w WR).
 Qed.
 Print Assumptions C11_semantic_correct_if_injective_fn.
+
+(* why SDD decision nodes hash to the defining sum too (function level; SddPtr itself is tied to
+   the defining sum by the correspondence only): for pairwise exclusive primes, and primes / subs
+   on disjoint variables, the defining sum of  \/_i prime_i /\ sub_i  is
+   sum_i H(prime_i) * H(sub_i)  -- what SddOr::semantic_hash and SddAnd::semantic_hash compute *)
+Theorem C11_sdd_node_hash_fn : forall (P : N) (w : wmap) (vars : list var)
+  (els : list ((asg -> bool) * (asg -> bool))) (x : asg),
+  In P exported_primes -> weights_ok P w = true -> NoDup vars -> excl_primes els ->
+  (forall p s, In (p, s) els -> ext_fun p /\ ext_fun s /\ forall v, In v vars -> ignores p v \/ ignores s v) ->
+  fhash P w vars (den_pairs els) x = zsum_pairs P w vars els x.
+Proof.
+  intros P w vars els x HP HW. destruct (exported_ok_range P w HP HW) as [OK WR].
+  apply (fhash_sdd_node P OK w WR).
+Qed.
+Print Assumptions C11_sdd_node_hash_fn.
 
 (* the hypothesis of the conditional theorem is not vacuous-by-default: injectivity FAILS for
    admissible weights in an exported field (zero divisors of Z/1000001: x0 /\ x1 hashes like
